@@ -93,7 +93,7 @@ def _drm_selection_from_string(value: str) -> list[DrmSelectionTuple]:
         return []
     if value.startswith('all'):
         if '-' in value:
-            locations = {DrmLocation.from_string(loc) for loc in value.split('-')[1:]}
+            locations = {DrmLocation(loc) for loc in value.split('-')[1:]}
         else:
             locations = ALL_DRM_LOCATIONS
         return [(drm, locations) for drm in DrmSystem.values()]
@@ -106,6 +106,8 @@ def _drm_selection_from_string(value: str) -> list[DrmSelectionTuple]:
         else:
             drm = item
             locations = ALL_DRM_LOCATIONS
+        if drm not in ALL_DRM_NAMES:
+            raise ValueError(f'Unknown DRM system "{drm}"')
         result.append((drm, locations))
     return result
 
